@@ -57,6 +57,17 @@ void srv_tunnel_tun(void)
 	tunnel_tun(11, &srv_fds);
 }
 
+/* the real select loop of the server (max_idle_time 0); srv_stop() ends it from the select() hook */
+int srv_tunnel_loop(void)
+{
+	return tunnel(11, &srv_fds, bind_port ? 12 : 0, 0);
+}
+
+void srv_stop(void)
+{
+	running = 0;
+}
+
 void srv_set_ns_ip(const unsigned char *ip4)
 {
 	if (ip4)
